@@ -175,6 +175,9 @@ def pred_family():
         "p_plain": cat(("plus", par(cat(T("A"), T("B")))), T("A")),
         "nullable_loop": cat(("star", par(("opt", T("A")))), T("B")),
         "nullable_opt": cat(("opt", ("opt", T("A"))), T("B")),
+        "g_nullable_loop": cat(("star", par(cat(P("1"), ("opt", T("A"))))), T("B")),
+        "g_nullable_opt": cat(("opt", cat(P("1"), ("opt", T("A")))), T("B")),
+        "g_nullable_plus": cat(("plus", par(cat(P("1"), ("opt", T("A")), ("opt", T("C"))))), T("B")),
         "g_paren": par(alt(par(cat(P("1"), T("A"), T("B"))), cat(T("A"), T("C")))),
         "three": par(alt(cat(T("A"), T("B")), cat(T("C"), T("B")), cat(T("A"), T("C")))),
         "nullable_alt": cat(par(alt(("opt", T("A")), T("B"))), T("A")),
